@@ -94,7 +94,13 @@ def judge(ctx, binary, cases):
             if not t:
                 v["soft"].append(("driver", mo))
             for key, val in t.items():
-                if key in ("cmp", "robust"):
+                if key == "cmp":
+                    continue
+                if key == "robust":
+                    # the manifest claims extremality is certified soundly as run: an inconclusive certificate is a
+                    # broken obligation of the check (not a failing input)
+                    if val not in ("ok", "ok2", "skipped"):
+                        v["soft"].append(("robust", val))
                     continue
                 if not good(key, val):
                     kind = val.split(":")[0].split("@")[0]
@@ -150,6 +156,7 @@ WHAT = {
     "contract": "the eigensolver's output is not a top-d eigensystem of the matrix it reads",
     "proj": "the returned projection object does not hold the solver's eigenvectors and the computed mean",
     "driver": "model driver could not judge the case",
+    "robust": "the tolerance-proof extremality certificate (Cert.extremalDeflated) did not close",
 }
 
 
@@ -238,6 +245,22 @@ def gen_cases(ctx, quick):
             add("correlated", "pca", "dense", rows, N, D, d, sp.is_pow2(N), rank)
             if rank <= d:
                 add("correlated", "pca", "rand", rows, N, D, d, False, rank)
+        # 2b. the same kind of data in other units (power-of-two scale factors: the data stay dyadic and mean, covariance,
+        #     eigenvectors are exactly scale-equivariant): the code must not carry absolute thresholds.  One tiny, one small
+        #     and one large unit per round.
+        for sc_exp in (r.choice([-40, -30, -24, -20]), r.choice([-14, -10, -8, -6]), r.choice([8, 20, 30])):
+            N = r.choice([4, 8]) if r.chance(1, 2) else r.range(3, 10)
+            D = r.range(1, 5)
+            rank = D if r.chance(1, 2) else r.range(1, D)
+            sc = Fraction(2) ** sc_exp
+            rows = [[Fraction(v) * sc for v in row] for row in sp.low_rank_points(r, N, D, rank)]
+            for d in ds_for(N, D, rank)[:3]:
+                add("scaled", "pca", "dense", rows, N, D, d, sp.is_pow2(N), rank)
+                if rank <= d:
+                    add("scaled", "pca", "rand", rows, N, D, d, False, rank)
+            top = min(N - 1, D)
+            if sp.centred_points_rank(rows) >= top:
+                add("scaled", "agree", "dense", rows, N, D, top, False, rank)
         # 3. dyadic (non-integer) features
         N = r.range(2, 16)
         D = r.range(1, 5)
@@ -303,7 +326,7 @@ def correspond(ctx):
     ctx.extra["failure_signature_counts"] = dict(ctx._seen)
     ctx.cov["rule"] = ("compute_mean / compute_covariance_matrix called directly and PCA through the public API (hook matrix, "
                        "solver output, returned projection object, embedding) on integer (N = 2^m, exact mode), correlated "
-                       "low-rank/full-rank and dyadic feature data, N <= %d, D <= %d, d in {1, rank, min(N-1,D), random}, "
+                       "low-rank/full-rank and dyadic feature data, the same in units 2^-40 .. 2^30, N <= %d, D <= %d, d in {1, rank, min(N-1,D), random}, "
                        "dense solver everywhere and the randomized solver on exact-rank data (rank <= d); N up to 3000 (thorough "
                        "20000) samples with OMP_NUM_THREADS = 8 and 1 for the per-sample loops; plus PCA vs "
                        "linear-kernel KPCA vs Euclidean MDS Gram agreement; every trace judged in exact rationals by "
